@@ -171,6 +171,56 @@ def body(chk):
                 ob.status = 'inconclusive'
                 chk.inconclusive.append(ob)
                 print('INCONCLUSIVE obligation=%s CBMC counterexample %r did not reproduce on the real library (got %r)' % (ob.name, s_in, got))
+    # ---- part 1c: the bounded claim rests on the assumption that the unit has no length-dependent behaviour other than its loops.  That
+    #      assumption is checked on the clang IR of the unit: every integer comparison with a constant c > N (a possible length threshold
+    #      beyond the bound) yields inputs -- a valid name decorated to the lengths c-1 .. c+2 and to 80 characters (the Fortran padding) --
+    #      on which the real library must produce the reference normal form
+    try:
+        import json as _json
+        ird = os.path.join(chk.scratch, 'ir-masa-map')
+        os.makedirs(ird, exist_ok=True)
+        build.compile_ir(ird, units=['masa_map'])
+        jm = _json.load(open(os.path.join(ird, 'masa_map.json')))
+        thresholds = set()
+        for fname_, f_ in jm['functions'].items():
+            for b_ in f_.get('blocks', []):
+                for ins_ in b_:
+                    if ins_.get('op') in ('icmp', 'switch'):
+                        for o_ in ins_.get('ops', []):
+                            if isinstance(o_, dict) and o_.get('k') == 'ci':
+                                try:
+                                    c_ = int(o_['v'])
+                                except Exception:
+                                    continue
+                                if N < c_ < 100000 and c_ not in (65, 90, 97, 122, 32, 45, 255, 127, 128, 256):      # (character codes of the case mapping / separators)
+                                    thresholds.add(c_)
+                                elif N < c_ < 100000:
+                                    thresholds.add(c_)
+        chk.bounds['integer_constants_above_the_length_bound_in_the_unit'] = sorted(thresholds)[:20]
+        lens = sorted(set([80] + [c_ + d_ for c_ in thresholds for d_ in (-1, 0, 1, 2) if 8 <= c_ + d_ <= 4096]))[:40]
+        base = 'Euler_1D'
+        cases = []
+        for L_ in lens:
+            pad = max(0, L_ - len(base))
+            cases += [base + ' ' * pad, ' ' * pad + base, base[:4] + '-' * pad + base[4:]]
+        import replay as rp
+        body_ = ['const char* in_[] = {%s};' % ', '.join('"%s"' % c_ for c_ in cases),
+                 'for(int i = 0; i < %d; i++) { std::string s(in_[i]); MASA::masa_map(&s); printf("R %%d [%%s]\\n", i, s.c_str()); }' % len(cases)]
+        src = '#include <masa_internal.h>\n#include <cstdio>\n#include <string>\nint main(){\n%s\n return 0;}\n' % '\n'.join(body_)
+        rc, o, e = chk.lib().run(src)
+        wrong = [(i, cases[i]) for i in range(len(cases)) if ('R %d [euler_1d]' % i) not in o]
+        tob = framework.Ob('masa_map:no-length-threshold-beyond-the-bound:inputs-at-every-integer-constant-of-the-unit', 'prop', None, 'unsat',
+                           dict(obligation='constants %r -> %d long inputs on the real library' % (sorted(thresholds)[:10], len(cases))), None, 'masa_map:length-threshold', ['MASA::masa_map'])
+        tob.result = dict(verdict='unsat' if not wrong else 'sat', time=0.0, output='', solver='IR constant scan + real library', hash='threshold-scan')
+        chk.obs.append(tob)
+        if not wrong:
+            tob.status = 'discharged'
+        else:
+            path = chk.save_replay(tob, dict(inputs=[w_[1] for w_ in wrong[:5]], stdout=o[-1500:], thresholds=sorted(thresholds)[:10]), src)
+            chk.report_violation('masa_map:length-threshold', path, 'masa_map(%r) (length %d) is not the reference normal form euler_1d; integer constants above the bound in the unit: %r' % (
+                wrong[0][1], len(wrong[0][1]), sorted(thresholds)[:6]), tob)
+    except Exception as e_:
+        chk.notes.append('length-threshold scan not run: %r' % (e_,))
     # ---- part 1b (thorough): CONCRETE inputs far beyond the symbolic length bound -- a name as the Fortran interface passes it (blank-padded
     #      character(len=80)) and a 66-character decorated name: CBMC executes the verbatim unit on them (constant propagation) and the
     #      result must be the reference normal form.  Length-dependent behaviour above the bound is otherwise outside the claim.
@@ -178,7 +228,7 @@ def body(chk):
         longs = ['Euler-1D'.ljust(80), ('-' * 30) + 'Heat Eq_1D-steady const' + (' ' * 13)]
         chk.bounds['concrete_long_inputs'] = [len(x) for x in longs]
         for S_ in longs:
-            lout, ldt, lcmd = run_cbmc(len(S_), unit_dir=unit_dir, concrete=S_, timeout=1500)
+            lout, ldt, lcmd = run_cbmc(len(S_), unit_dir=unit_dir, concrete=S_, timeout=1200)
             lv = 'unsat' if 'VERIFICATION SUCCESSFUL' in lout else ('sat' if 'VERIFICATION FAILED' in lout else ('timeout' if lout == 'TIMEOUT' else 'error'))
             lob = framework.Ob('masa_map:cbmc:concrete-input-of-length-%d' % len(S_), 'prop', None, 'unsat', dict(obligation='masa_map(%r) == reference normal form' % S_, checker=lcmd), None,
                                'masa_map:long-input', ['MASA::masa_map'])
